@@ -156,6 +156,31 @@ class _Subst(ast.NodeTransformer):
         self.mark = mark
         self.count = 0
 
+    def _scoped(self, node):
+        a = node.args
+        ps = {x.arg for x in list(a.posonlyargs) + list(a.args) + list(a.kwonlyargs)}
+        if a.vararg:
+            ps.add(a.vararg.arg)
+        if a.kwarg:
+            ps.add(a.kwarg.arg)
+        if not (ps & set(self.m)):
+            return self.generic_visit(node)
+        inner = _Subst({k: v for k, v in self.m.items() if k not in ps}, self.mark)
+        a.defaults = [self.visit(d) for d in a.defaults]
+        a.kw_defaults = [self.visit(d) if d is not None else None for d in a.kw_defaults]
+        if isinstance(node.body, list):
+            node.body = [inner.visit(b) for b in node.body]
+        else:
+            node.body = inner.visit(node.body)
+        self.count += inner.count
+        return node
+
+    def visit_Lambda(self, node):
+        return self._scoped(node)
+
+    def visit_FunctionDef(self, node):
+        return self._scoped(node)
+
     def visit_Name(self, node):
         if isinstance(node.ctx, ast.Load) and node.id in self.m:
             new = copy.deepcopy(self.m[node.id])
@@ -1171,10 +1196,9 @@ def _instantiate(c: Candidate, call: ast.Call, receiver, want_expr: bool):
             if isinstance(n, ast.Name) and isinstance(n.ctx, (ast.Store, ast.Del)) and n.id != ret and not n.id.endswith(f"__i{k}"):
                 locs.add(n.id)
     locs -= set(direct)
+    from .alpha import rename_scoped
     for s in stmts:
-        for n in ast.walk(s):
-            if isinstance(n, ast.Name) and n.id in locs:
-                n.id = f"{n.id}__i{k}"
+        rename_scoped(s, {x: f"{x}__i{k}" for x in locs})
     sub = _Subst(direct, mark=False)
     stmts = [sub.visit(s) for s in stmts]
     value: ast.AST = ast.Name(id=ret, ctx=ast.Load())
@@ -1222,10 +1246,9 @@ def _instantiate_generator(c: Candidate, call: ast.Call, receiver, loop: ast.For
         else:
             direct[p] = ast.Name(id=tmp, ctx=ast.Load())
     locs = {n.id for st in body for n in ast.walk(st) if isinstance(n, ast.Name) and isinstance(n.ctx, (ast.Store, ast.Del))} - set(direct)
+    from .alpha import rename_scoped
     for st in body:
-        for n in ast.walk(st):
-            if isinstance(n, ast.Name) and n.id in locs:
-                n.id = f"{n.id}__i{k}"
+        rename_scoped(st, {x: f"{x}__i{k}" for x in locs})
     sub = _Subst(direct, mark=False)
     body = [sub.visit(st) for st in body]
     gloop = body[-1]
@@ -1265,10 +1288,9 @@ def _instantiate_cm(c: Candidate, call: ast.Call, receiver, w: ast.With):
         else:
             direct[p] = ast.Name(id=tmp, ctx=ast.Load())
     locs = {n.id for st in body for n in ast.walk(st) if isinstance(n, ast.Name) and isinstance(n.ctx, (ast.Store, ast.Del))} - set(direct)
+    from .alpha import rename_scoped
     for st in body:
-        for n in ast.walk(st):
-            if isinstance(n, ast.Name) and n.id in locs:
-                n.id = f"{n.id}__i{k}"
+        rename_scoped(st, {x: f"{x}__i{k}" for x in locs})
     sub = _Subst(direct, mark=False)
     body = [sub.visit(st) for st in body]
     var = w.items[0].optional_vars
@@ -1619,7 +1641,9 @@ def _inline_helpers_core(modules, ref_funcs, report) -> None:
         f = call.func
         if isinstance(f, ast.Name) and f.id in by_name:
             c = by_name[f.id][0]
-            if c.cls is None and (c.module == mod or _imports(modules[mod], f.id, c.module)):
+            if c.cls is None and c.module == mod:
+                return c, None
+            if c.cls is None and _imports(modules[mod], f.id, c.module) and _globals_available(modules, c, mod):
                 return c, None
         if isinstance(f, ast.Attribute) and f.attr in by_name:
             c = by_name[f.attr][0]
@@ -1688,6 +1712,63 @@ def _inline_helpers_core(modules, ref_funcs, report) -> None:
                     if isinstance(n, ast.ClassDef) and n.name == c.cls:
                         n.body = [x for x in n.body if x is not c.fn] or [ast.Pass()]
             report["dissolved"].append(f"{c.module}:{(c.cls + '.') if c.cls else ''}{nm}")
+            if c.cls is None:
+                # imports of the dissolved function elsewhere in the package
+                for m2 in modules.values():
+                    for holder in ast.walk(m2.tree):
+                        for fld in ("body", "orelse", "finalbody"):
+                            blk = getattr(holder, fld, None)
+                            if not (isinstance(blk, list) and blk and isinstance(blk[0], ast.stmt)):
+                                continue
+                            for st in list(blk):
+                                if isinstance(st, ast.ImportFrom) and any(a.name == nm for a in st.names):
+                                    st.names = [a for a in st.names if a.name != nm]
+                                    if not st.names:
+                                        blk[blk.index(st)] = ast.copy_location(ast.Pass(), st)
+
+
+def _module_bindings(mi) -> dict:
+    """top-level name -> origin text (import source or 'def') of a module"""
+    cached = getattr(mi, "_bindings", None)
+    if cached is not None:
+        return cached
+    out = {}
+    for n in mi.tree.body:
+        if isinstance(n, ast.ImportFrom):
+            for a in n.names:
+                out[a.asname or a.name] = f"{'.' * n.level}{n.module or ''}:{a.name}"
+        elif isinstance(n, ast.Import):
+            for a in n.names:
+                out[(a.asname or a.name).split(".")[0]] = "import " + a.name
+        elif isinstance(n, (ast.ClassDef,) + FuncT):
+            out[n.name] = "def"
+        else:
+            for t in _targets(n):
+                out[t] = "assign"
+    try:
+        mi._bindings = out
+    except Exception:
+        pass
+    return out
+
+
+def _globals_available(modules, c, caller_mod: str) -> bool:
+    """every module-level name the helper's body uses means the same thing in the calling module (same import origin)"""
+    import builtins
+    here, there = _module_bindings(modules[c.module]), _module_bindings(modules[caller_mod])
+    bound = _stores(c.fn) | set(_params(c.fn))
+    for n in ast.walk(c.fn):
+        if isinstance(n, ast.Name) and isinstance(n.ctx, ast.Load) and n.id not in bound and not hasattr(builtins, n.id):
+            o = here.get(n.id)
+            if o is None:
+                continue
+            o2 = there.get(n.id)
+            if o2 is None:
+                return False
+            # relative imports may be spelled differently in the two modules: compare the imported name only
+            if o.split(":")[-1] != o2.split(":")[-1] or (o.startswith("import ") != o2.startswith("import ")):
+                return False
+    return True
 
 
 def _imports(mi, name, module) -> bool:
